@@ -561,6 +561,21 @@ func runC12(p *Program, r *Report) {
 					}
 				}
 			}
+			// a loop inside a helper the reference tree does not have was cut: what the origin decision does on its later
+			// iterations (a second Origin line, say) was not explored, and the rows above would pass on the first iteration alone
+			for _, pa := range other {
+				cutInHelper := pa.End == "loop-in-inline"
+				if pa.End == "loop" && len(pa.Events) > 0 {
+					if last := pa.Events[len(pa.Events)-1]; last.Kind == "loop" && last.In != nil && last.In != fn && p.rawName(last.In) != "match" {
+						cutInHelper = true
+					}
+				}
+				if cutInHelper {
+					r.Check("C12.auth", "authenticateOrigin", "origin decision explored to the end", pos, false,
+						"the lines of the Origin header are counted and read directly (len(h.Values(\"Origin\")), h.Get(\"Origin\")), not through a loop in a new helper whose later iterations decide what counts as a line", "a loop in a helper called by authenticateOrigin was cut: "+pa.CubeString())
+					break
+				}
+			}
 			// deny paths: every non-nil return is an error; the loop fall-through ends in an error too
 			for _, pa := range other {
 				if pa.End == "return" && nilness(pa.Ret[0], pa) != 1 {
